@@ -202,8 +202,10 @@ theorem processBunch_ginv (c : Conn) (x : Channel) (b : Bunch) (h : GInv c) (hx 
   · exact ⟨h.of_chans rfl, Adds.emit _ _ (hf _)⟩
   · split
     · split
-      · exact ⟨setChan_ginv _ _ _ h hx, setChan_adds _ _ _ _⟩
       · exact ⟨h.of_chans rfl, Adds.emit _ _ (hf _)⟩
+      · split
+        · exact ⟨setChan_ginv _ _ _ h hx, setChan_adds _ _ _ _⟩
+        · exact ⟨h.of_chans rfl, Adds.emit _ _ (hf _)⟩
     · exact receivedNextBunch_ginv _ _ h
 
 theorem receivedRawBunch_ginv (c : Conn) (bits : Bits) (h : GInv c) :
